@@ -39,13 +39,18 @@ def oracle(case, r):
     allowed = case['allowed']
     if r['escaped'] or r['next_escaped']:
         return ('escaped', 'an exception escaped: %s / %s' % (r['escaped'], r['next_escaped']))
-    if r['wall'] > allowed + 2.5 + (2.0 if case['schedule'] == 'A' else 0):
+    if r['wall'] > allowed + 2.5:
         return ('slow-return', 'the call returned after %.2fs for a limit of %.2fs' % (r['wall'], allowed))
     if r['exception_at_return'] != 'TimeoutError':
         return ('exception-at-return', 'sandbox exception when the call returned is %s' % r['exception_at_return'])
     if r['labels_at_end'][:len(r['labels_at_end'])] != ['timeout_error']:
         return ('feedback-count', 'runtime feedback at the end: %s (expected exactly the timeout)' % r['labels_at_end'])
     if r['next_output'] != 'next-1\nnext-2\n':
+        if case['name'] == 'finish-late' and r['next_output'] is not None and \
+                r['next_output'].replace('late\n', '', 1) == 'next-1\nnext-2\n':
+            # student code that swallows the injected SystemExit keeps running and prints into whatever sys.stdout is then
+            return ('abandoned-thread-keeps-printing', 'the abandoned thread swallowed the termination and its later print() landed '
+                    'in the NEXT execution\'s captured output: %r' % r['next_output'])
         return ('next-output', 'output of the next execution is %r' % r['next_output'])
     if r['exception_after_next'] is not None:
         return ('next-exception', 'the next (clean) execution ends with exception %s' % r['exception_after_next'])
@@ -75,8 +80,12 @@ def correspondence(ctx):
         forced = any(p == 'execute.systemexit' for p, _ in r['hook_log'])
         ctx.count('student-handler-observed' if forced else 'student-handler-never-ran')
         v = oracle(case, r)
+        if v and v[0] == 'abandoned-thread-keeps-printing':
+            ctx.violation(v[0], {'case': case, 'observed': r, 'why': v[1]})
+            continue   # the model does not follow student code that keeps running after swallowing the termination
         if v:
-            ctx.violation('%s:%s' % (v[0], case['schedule']), {'case': case, 'observed': r, 'why': v[1]})
+            key = v[0] if v[0] == 'abandoned-thread-keeps-printing' else '%s:%s' % (v[0], case['schedule'])
+            ctx.violation(key, {'case': case, 'observed': r, 'why': v[1]})
         sched = SCHED[case['schedule']] if forced else 3
         clean = not (r['patch_depth'] or r['stdout_depth']) and r['stdout_restored']
         items.append('(%s, %s, %s, %s, %s, %s)' % (cnat(sched), cnat(es), cnat(ts), cnat(len(r['labels_at_end'])),
